@@ -190,7 +190,7 @@ CHECKS['C09'] = (
     'segment_view_eq_section_view and symbols_exact are proved at full strength over assembled images (…_partial forms kept). by_name_exact for both layouts and all three string-table routes (section link, '
     'DT_STRTAB pointer, .dynstr by name); the no-hash count fallback has its exact value (num_symbols_fallback), the precise condition under which it equals the true count (…_exact_iff) and a counterexample '
     'theorem (DT_STRSZ lying between the tables: the reader counts 0 of 2 symbols — an estimate by design, not judged as a defect); error side: no string table, unmapped symbol table, DT_SYMENT mismatch '
-    '(fallback path only), table without DT_NULL. Correspondence-only: relocation entries (C08), DynamicSection view of an unterminated table, ill-formed UTF-8 names, GNU-hash count on malformed tables.',
+    '(fallback path only), table without DT_NULL. The two lazily built caches of DynamicSegment (_num_symbols, _symbol_name_map) are instances of the generic cache machine (Model/DynCache on Model/SigCache): num_symbols_history_independent, by_name_history_independent, by_name_failed_walk_publishes_nothing — any image, any history; their tie is the segment view of the harness (count, abandoned walk, full walk and every second by-name query on ONE live object, compared with the stateless model). Correspondence-only: relocation entries (C08), DynamicSection view of an unterminated table, ill-formed UTF-8 names, GNU-hash count on malformed tables.',
     'DESIGN.md §6 C09')
 CHECKS['C04'] = (
     'Lean 4 theorems: END-TO-END debug_info_exact / debug_types_exact — for every well-formed forest description (units of DWARF 2-5, both formats, every unit type, abbreviation tables '
